@@ -110,6 +110,7 @@ PROPS = {
             {'engine': 'verus', 'name': 'sinks', 'tier': 'quick', 'role': 'ForEach / CollectCountSink / CollectChannelSink::next: every data element consumed exactly once in arrival order (closure call log, running count, channel log); result published / channel closed exactly at Terminate; control elements forwarded unchanged'},
             {'engine': 'verus', 'name': 'flat_map', 'tier': 'quick', 'role': "FlatMap::next: the items of an input element leave one per call in order, stamped with that element's timestamp; the next input is pulled only when the iterator is exhausted, so control elements (Watermark) leave unchanged and only after every derived item"},
             {'engine': 'verus', 'name': 'sort_merge', 'tier': 'quick', 'role': "JoinLocalSortMerge::{discard_right,next} (NARROWED: the iteration protocol around the merge): sides stored with their keyer's key, sorted at their end marker, tuples only after both sides ended, unmatched right element padded once iff outer, constructor state restored at FlushAndRestart (nothing carried over). The merge loop  is ASSUMED, not verified"},
+            {'engine': 'verus', 'name': 'interval_join', 'tier': 'quick', 'role': "IntervalJoin::{advance,next} (NARROWED: soundness + iteration protocol): a left element is queued at the back of the left queue, a right element at the back of its key's queue, with their timestamps; every emitted tuple pairs a left and a right element stored under the SAME key with lt - lower <= rt <= lt + upper, stamped max(lt, rt); queues are consumed from the front only; both sides are emptied at the end of the iteration and the constructor state is restored at FlushAndRestart (the real code's asserts are proved). Completeness (every pair in the interval emitted) is NOT decided"},
         ],
         'explanation': 'Verus proof of the per-call contract of Start::next (any number of upstream replicas, any batches): FlushAndRestart is returned exactly when every '
                        'upstream FlushAndRestart of the iteration was consumed (and the per-iteration state restarts), Terminate exactly when every upstream Terminate was consumed, '
@@ -242,6 +243,7 @@ PROPS = {
             {'engine': 'verus', 'name': 'hash_join', 'tier': 'quick', 'role': 'JoinLocalHash::{add_item, side_ended}, JoinVariant::{left_outer,right_outer} + lemma_inner_history (all interleavings) + refinement lemmas'},
             {'engine': 'verus', 'name': 'binary_select', 'tier': 'quick', 'role': 'the two-input receiver that feeds every join: each side delivered completely, in order, wrapped in its variant, with the side end marker before the FlushAndRestart that completes the iteration'},
             {'engine': 'verus', 'name': 'sort_merge', 'tier': 'quick', 'role': "JoinLocalSortMerge::{discard_right,next} (NARROWED: the iteration protocol around the merge): sides stored with their keyer's key, sorted at their end marker, tuples only after both sides ended, unmatched right element padded once iff outer, constructor state restored at FlushAndRestart (nothing carried over). The merge loop  is ASSUMED, not verified"},
+            {'engine': 'verus', 'name': 'interval_join', 'tier': 'quick', 'role': "IntervalJoin::{advance,next} (NARROWED: soundness + iteration protocol): a left element is queued at the back of the left queue, a right element at the back of its key's queue, with their timestamps; every emitted tuple pairs a left and a right element stored under the SAME key with lt - lower <= rt <= lt + upper, stamped max(lt, rt); queues are consumed from the front only; both sides are emptied at the end of the iteration and the constructor state is restored at FlushAndRestart (the real code's asserts are proved). Completeness (every pair in the interval emitted) is NOT decided"},
         ],
         'explanation': 'NARROWED scope: the local hash join (inner / left / outer), Verus. Per-call contracts of JoinLocalHash::add_item (an arriving element is paired, in order, with every element the other side '
                        'has stored under its key; if there is none and the other side has ended and this side is outer it is emitted once padded with None; it is stored for future matches iff the other side '
@@ -250,6 +252,6 @@ PROPS = {
                        'interleaving of the two sides and of their end markers the matched pairs emitted under each key are exactly the relational join (each pair once). '
                        'JoinLocalHash::next is under contract too (dispatch with the flags of the variant, asserts at FlushAndRestart). Sort-merge join: soundness of the merge loop and the iteration protocol around it (unit sort_merge); '
                        'NOT decided: the exact multiset of None-padded tuples over a whole history, completeness of the sort-merge merge loop, keyed-stream join, interval join, ship strategies (same key hash on both sides).',
-        'assumptions': ['HashMap/HashSet by their map/set views; drain order arbitrary', 'JoinLocalSortMerge: completeness of the merge (every same-key pair / every unmatched outer element emitted) is not decided; keyed_join, IntervalJoin, ship.rs: not under contract', 'correspondence between the add_item/side_ended contracts and the abstract machine js_step/js_out: same clauses (refinement lemmas for the emitted tuples; the stored-state clauses are syntactically the same expressions)'],
+        'assumptions': ['HashMap/HashSet by their map/set views; drain order arbitrary', 'JoinLocalSortMerge / IntervalJoin: completeness (every same-key pair / every pair inside the interval / every unmatched outer element emitted) is not decided; keyed_join, ship.rs: not under contract', 'correspondence between the add_item/side_ended contracts and the abstract machine js_step/js_out: same clauses (refinement lemmas for the emitted tuples; the stored-state clauses are syntactically the same expressions)'],
     },
 }
